@@ -59,3 +59,37 @@ Example C04_example :
   parse_matrix true "id" SArr ";id=3;id=4;id=5" = Some (VArr ["3"; "4"; "5"]%string) /\
   parse_matrix false "id" SObj ";id=role,admin,firstName,Alex" = Some (VObj [("role", "admin"); ("firstName", "Alex")]%string).
 Proof. vm_compute. repeat split. Qed.
+
+(** "Values containing characters that need URL escaping (space, '/', '?', '#', ':', non-ASCII) arrive unchanged": the
+    client escapes a value as one path segment or one query component (net/url, modelled in Model/Escape.v and tied to
+    url.PathEscape / QueryEscape / PathUnescape / QueryUnescape by cases_C04_escape / cases_C04_unescape), the server
+    side unescapes with the matching decoder: the round trip is the identity for EVERY byte string, the escaped text
+    holds no separator of its position, and decoding a path segment by the query rules is refuted (a plus sign
+    arrives as a blank: the shape of three seeded changes). *)
+From Coq Require Import NArith.
+From V Require Import Model.Escape Proofs.EscapeProofs.
+Local Open Scope N_scope.
+
+Theorem C04_escape_roundtrip : forall m s, Forall (fun b => b < 256) s -> unescape m (escape m s) = Some s.
+Proof. exact escape_roundtrip. Qed.
+Print Assumptions C04_escape_roundtrip.
+
+Theorem C04_escaped_segment_has_no_separator : forall s,
+  Forall (fun b => b < 256) s -> Forall (fun c => c <> 47 /\ c <> 63 /\ c <> 35) (escape PathSegment s).
+Proof. exact escaped_segment_has_no_separator. Qed.
+Print Assumptions C04_escaped_segment_has_no_separator.
+
+Theorem C04_escaped_component_has_no_delimiter : forall s,
+  Forall (fun b => b < 256) s -> Forall (fun c => c <> 38 /\ c <> 61 /\ c <> 35) (escape QueryComponent s).
+Proof. exact escaped_component_has_no_delimiter. Qed.
+Print Assumptions C04_escaped_component_has_no_delimiter.
+
+Theorem C04_path_segment_decoded_as_query_refuted :
+  unescape QueryComponent (escape PathSegment [43]) = Some [32].
+Proof. exact path_segment_decoded_as_query_refuted. Qed.
+Print Assumptions C04_path_segment_decoded_as_query_refuted.
+
+Example C04_escape_example :
+  escape PathSegment [97; 32; 47; 43] = [97; 37; 50; 48; 37; 50; 70; 43]          (* "a /+" -> "a%20%2F+" *)
+  /\ escape QueryComponent [97; 32; 47; 43] = [97; 43; 37; 50; 70; 37; 50; 66].     (* -> "a+%2F%2B" *)
+Proof. split; reflexivity. Qed.
